@@ -215,13 +215,14 @@ def rule_sentinel(ctx: Ctx) -> None:
             if isinstance(s.node, ast.Assign):
                 init_ok = K.const_num(s.node.value) == 0.0
                 nonneg &= init_ok
-            elif isinstance(s.node, ast.AugAssign) and isinstance(s.node.op, ast.Add) and isinstance(s.node.value, ast.Name):
-                term = s.node.value.id
-                # a test 'term <= 0 -> continue' (or 'term > 0') must separate the loop head from this statement
+            elif isinstance(s.node, ast.AugAssign) and isinstance(s.node.op, ast.Add):
                 sn = g.nodes_for(s.stmt)[0]
                 loop = next((a for a in A.ancestors(s.stmt) if isinstance(a, ast.For)), None)
-                pos = False
-                if loop is not None:
+
+                def guarded_positive(term: str) -> bool:
+                    # a test 'term <= 0 -> continue' (or 'term > 0') must separate the loop head from this statement
+                    if loop is None:
+                        return False
                     for t in [n for n in g.nodes if n.kind == "test"]:
                         tt = K.truth_table(t.ast, term) if _only_var(t.ast, term) else None
                         if tt is None:
@@ -235,8 +236,21 @@ def rule_sentinel(ctx: Ctx) -> None:
                         head = g.nodes_for(loop)[0]
                         # every path head -> sn must avoid edge (t, lab)
                         if _reaches_only_without(g, head, sn, t, lab):
-                            pos = True
-                nonneg &= pos
+                            return True
+                    return False
+
+                def positive(e: ast.AST, depth: int = 0) -> bool:
+                    """strictly positive on every path to the accumulation (conversion at a positive price preserves the sign)"""
+                    if depth > 4:
+                        return False
+                    if isinstance(e, ast.Name):
+                        return guarded_positive(e.id)
+                    if isinstance(e, ast.IfExp):
+                        return positive(e.body, depth + 1) and positive(e.orelse, depth + 1)
+                    if isinstance(e, ast.Call) and isinstance(e.func, ast.Attribute) and e.func.attr == "convert" and e.args:
+                        return positive(e.args[0], depth + 1)
+                    return False
+                nonneg &= positive(s.node.value)
             else:
                 nonneg = False
     ctx.check(nonneg and init_ok, "C10.3", "equity is a sum of strictly positive terms starting at 0 (range [0, inf))", calc,
